@@ -90,6 +90,9 @@ type Exec struct {
 	chanElem  map[string]types.Type // element type per "lastsent:key" / "lastrecv:key"
 	elemInfo   map[string]elemRef   // element address -> (backing array, index)
 	appendInfo map[string]*appendRec // backing array allocated by append -> its sources
+	inferred   map[string]*LoopSpec  // candidate invariants of loops in inlined helpers (houdini.go)
+	curState   *State                // the state roleSite resolves inlined parameters in
+	houdiniRetry bool                // a candidate could not be evaluated and was dropped: run again
 }
 
 type elemRef struct {
@@ -521,8 +524,7 @@ func (x *Exec) loopSpec(fn *ssa.Function, li *loopInfo) *LoopSpec {
 		if fn != x.fn {
 			// a loop inside an inlined, uncontracted helper: no invariant is known, everything the loop may
 			// write is forgotten at its head (sound; weak)
-			x.notes = append(x.notes, fmt.Sprintf("loop %d of inlined %s has no invariant: its effects are havocked", li.ordinal, x.prog.relName(fn)))
-			return &LoopSpec{}
+			return x.inferredLoopSpec(fn, li)
 		}
 		panic(unsupported(fmt.Sprintf("loop %d of %s has no invariant", li.ordinal, x.prog.relName(fn))))
 	}
@@ -648,6 +650,13 @@ func (x *Exec) checkInvariants(st *State, fr *Frame, li *loopInfo, phase string)
 	env := x.loopEnv(st, fr, li)
 	for k, c := range ls.Invs {
 		env.what = fmt.Sprintf("%s loop %d invariant (%s:%d)", x.prog.relName(fr.fn), li.ordinal, shortFile(c.File), c.Line)
+		if ls.Soft {
+			// a candidate (houdini.go): a failure drops the candidate instead of being reported
+			if g, ok := x.tryEvalBool(env, c); ok {
+				x.oblige(st, "softinv"+fmt.Sprint(li.ordinal)+"."+phase, c.Label, g, x.spec.Props, "inferred invariant candidate: "+c.Text, token.NoPos)
+			}
+			continue
+		}
 		parts := x.splitConj(c.Expr, 0)
 		for j, pe := range parts {
 			d := fmt.Sprint(k)
@@ -878,6 +887,12 @@ func (x *Exec) havocLoop(st *State, fr *Frame, li *loopInfo) {
 	env := x.loopEnv(st, fr, li)
 	for _, c := range ls.Invs {
 		env.what = fmt.Sprintf("%s loop %d invariant (%s:%d)", x.prog.relName(fr.fn), li.ordinal, shortFile(c.File), c.Line)
+		if ls.Soft {
+			if g, ok := x.tryEvalBool(env, c); ok {
+				st.assume(g)
+			}
+			continue
+		}
 		st.assume(env.evalBool(c.Expr))
 	}
 }
@@ -885,6 +900,7 @@ func (x *Exec) havocLoop(st *State, fr *Frame, li *loopInfo) {
 // ---- blocks --------------------------------------------------------------------
 
 func (x *Exec) enterBlock(st *State, b *ssa.BasicBlock, pred *ssa.BasicBlock) {
+	x.curState = st
 	fr := st.top()
 	if len(st.frames) == 1 {
 		st.curBlock = b
@@ -1083,6 +1099,7 @@ func describe(v ssa.Value) string {
 // ---- instructions -------------------------------------------------------------------
 
 func (x *Exec) step(st *State, b *ssa.BasicBlock, idx int, in ssa.Instruction) bool {
+	x.curState = st
 	switch in := in.(type) {
 	case *ssa.DebugRef:
 		return true
